@@ -172,6 +172,7 @@ class Report:
         self.trusted |= other.trusted
         self.bounded.extend(other.bounded)
         self.crosschecked += other.crosschecked
+        self.crosscheck_skipped = getattr(self, "crosscheck_skipped", 0) + getattr(other, "crosscheck_skipped", 0)
         self.crosscheck_mismatch.extend(other.crosscheck_mismatch)
         self.errors.extend(other.errors)
         self.solver_s += other.solver_s
@@ -295,6 +296,8 @@ def conc_under(v, m):
         for k, x in v.pairs:
             dict.__setitem__(r, conc_under(k, m), conc_under(x, m))
         return r
+    if type(v) in NATIVE_BUILDERS:
+        return NATIVE_BUILDERS[type(v)](v, m)
     if isinstance(v, VObj):
         mk = NATIVE_BUILDERS.get(v.cls)
         if mk is not None:
@@ -466,6 +469,7 @@ def check_contract(con: Contract, rep: Report, engine=None, crosscheck=True, kno
             for n, d in combo:
                 vals[n] = d.make(run, n)
             s = S(vals)
+            s._run = run
             holder[id(run)] = s
             run.sargs = s
             if con.setup:
@@ -618,7 +622,8 @@ def crosscheck_path(con, raw, combo, s, p, rep, oid):
     m = sol.model()
     try:
         nargs = {n: conc_under(getattr(s, n), m) for n, _ in combo}
-    except Exception:
+    except Exception as ex:
+        rep.crosscheck_skipped = getattr(rep, "crosscheck_skipped", 0) + 1
         return
     kind, val = outcome_native(con, raw, combo, nargs)
     rep.crosschecked += 1
